@@ -33,7 +33,7 @@ class Job:
                  timeout=900, sentinel=None, cover=False, functions=(),
                  safety=None, known=(), replay=None, expect_obligations=(),
                  allow_nobody=(), includes=(), solver=None, note="", nondfcc=False,
-                 unwind_ok=False, objbits=12, local_frame_ok=()):
+                 unwind_ok=False, objbits=12, local_frame_ok=(), pre_unwind=None):
         self.name = name
         self.harness = harness
         self.entry = entry
@@ -61,6 +61,7 @@ class Job:
         self.unwind_ok = unwind_ok
         self.objbits = objbits
         self.local_frame_ok = list(local_frame_ok)
+        self.pre_unwind = pre_unwind
 
 
 def sh(cmd, cwd=None, timeout=None, mem=True, stdout=subprocess.PIPE):
@@ -151,6 +152,16 @@ def run_job(job, work, tier, log):
         info["cmds"].append(" ".join(cmd))
         if rc != 0:
             raise ToolProblem("goto-cc failed (%s):\n%s" % (job.name, (out + err)[-3000:]))
+        if job.pre_unwind:
+            # loops without a contract nested inside a loop with a contract must be unwound first
+            # (constant bounds; the unwinding assertion proves the bound suffices)
+            a2 = os.path.join(jw, "u_%s.gb" % tag)
+            cmd = ["goto-instrument", "--unwindset", job.pre_unwind, "--unwinding-assertions", a, a2]
+            rc, out, err, _ = sh(cmd, timeout=300)
+            info["cmds"].append(" ".join(cmd))
+            if rc != 0:
+                raise ToolProblem("goto-instrument --unwindset failed (%s):\n%s" % (job.name, (out + err)[-2000:]))
+            a = a2
         if job.nondfcc:
             cmd = ["goto-instrument"]
             for f in job.enforce:
